@@ -2521,7 +2521,7 @@ class x86_mn(x86_mn_base):
                             elif read_prefix == [0xF3]:
                                 self.opmode = xmm
                                 self.admode = xmm
-                                if not swap_args: raise ValueError('Invalid')
+                                if not swap_args: return None
                                 swap_args = False
                         else:
                             log.debug('Unknown MMX', m.name)
@@ -2530,7 +2530,7 @@ class x86_mn(x86_mn_base):
                         elif self.opmode == mm:  reg_cat = x86_afs.reg_mm_base
                         elif self.opmode == u32: reg_cat = 0
                         else:
-                            NEVER
+                            return None
                     c = ord(bin.readbs())
                     re, modr = x86mndb.get_afs(bin, c, self.admode)
                     mafs = dict(x86mndb.get_afs_re(re+reg_cat))
@@ -2557,7 +2557,7 @@ class x86_mn(x86_mn_base):
                             if   read_prefix == [0x66]:
                                 modr[x86_afs.size] = x86_afs.f32
                             elif read_prefix == [0xF2]:
-                                NEVER
+                                return None
                             elif read_prefix == [0xF3]:
                                 modr[x86_afs.size] = x86_afs.f64
                         elif '#ps#' in m.name or m.name == 'mov#ups#':
@@ -2571,7 +2571,7 @@ class x86_mn(x86_mn_base):
                             elif read_prefix == [0x66]:
                                 modr[x86_afs.size] = x86_afs.f64
                             elif read_prefix == [0xF2] or read_prefix == [0xF3]:
-                                NEVER
+                                return None
                         elif '#ps2pi' in m.name or '#ps2pd' in m.name:
                             if read_prefix == [] or read_prefix == [0xF2]:
                                 modr[x86_afs.size] = x86_afs.f64
